@@ -13,4 +13,6 @@ let init () =
   register "rd" (fun args ->
     let chunks = Stdlib.List.map bytes_of_hex args in
     let (evs, _) = reader_run registered_ids [] chunks [] in
+    (* a 0x8003 from the terminal goes to the re-request channel: no reader callback is observable for it *)
+    let evs = Stdlib.List.filter (function RReissue _ -> false | _ -> true) evs in
     if evs = [] then "ok -" else "ok " ^ String.concat ";" (Stdlib.List.map show_ev evs))
